@@ -4,6 +4,14 @@ import json, os, sys
 HERE = os.path.dirname(os.path.dirname(os.path.abspath(__file__)))
 
 CHECKS = {
+ "C07": dict(level="proof", design="4.7",
+   technique="generated static_assert / must-compile / must-not-compile witnesses discharged by the compilers, plus def-use rules on the aliasing helpers of xclosure_wrapper/xclosure_pointer",
+   text="Decides the type/aliasing structure for every value category: ~260 static_asserts on the four mapping traits, the factories, ref-qualified "
+        "accessors of xclosure_wrapper/xoptional/xmasked_value/xcomplex (incl. mixed closures), operator& of wrappers and proxies, forward_sequence and "
+        "proxy_wrapper; must-compile witnesses with a type that can be neither copied nor moved prove 'without copying it', move-only temporaries prove "
+        "ownership; must-not-compile witnesses reject writes through const closures; def-use rules check that lvalue closures store &param and "
+        "dereference it, that nothing rebinds the stored pointer, and that assignment/swap go through deref().",
+   note="Checked with clang++ -std=gnu++17 and g++ -std=gnu++14 (quick) and both compilers x C++14/17/20 (thorough); const rvalue sources may map to a const value; lifetime misuse in user code is out of scope."),
  "C14": dict(level="other", design="4.12",
    technique="call-site/effect lint over the hash call graph, interval check of byte reads, cursor-discipline rule, and agreement of the normalised operation sequence with the reference MurmurHash2/64A",
    text="Decides structural necessary conditions: entry points forward (buffer,length,seed) unchanged to the right kernel; std::hash<xbasic_fixed_string> "
